@@ -13,8 +13,8 @@ import (
 	"sync"
 	"time"
 
-	"os/exec"
 	"go/types"
+	"os/exec"
 
 	"golang.org/x/tools/go/ssa"
 )
@@ -107,7 +107,7 @@ func readPropsMap(path string) (map[string][]string, error) {
 
 type knownFinding struct {
 	Prop, Func, Obl, Region, Text string
-	Fixed                        bool
+	Fixed                         bool
 }
 
 var kfRe = regexp.MustCompile(`^property=(\S+)\s+func=(\S+)\s+obligation=(\S+)\s+region=(.*?)\s+::\s+(.*)$`)
@@ -138,11 +138,11 @@ func readKnownFindings(path string) ([]knownFinding, error) {
 type funcOutcome struct {
 	boundedFirst string
 	boundedCases int
-	Key      string
-	VC       *VCResult
-	Res      map[int]OblResult
-	SolveErr string
-	Secs     float64
+	Key          string
+	VC           *VCResult
+	Res          map[int]OblResult
+	SolveErr     string
+	Secs         float64
 }
 
 // runFunctions generates and solves the VCs of the given functions in parallel.
@@ -585,22 +585,22 @@ func cmdCheck(args []string) int {
 	ev := Evidence{PropertyID: *prop, Tier: *tier, Seed: seed, Level: "proof", WallS: time.Since(t0).Seconds(), Violations: violations,
 		Assumptions: assumptions,
 		Coverage: map[string]interface{}{
-			"obligations":                 nObl,
-			"discharged":                  nDis,
-			"checker_cmd":                 fmt.Sprintf("bin/gvc check -property %s -tier %s", *prop, *tier),
-			"trusted_base":                []string{"go/packages+go/ssa (x/tools v0.29.0)", "gvc VC generator (/verif/gvc)", "z3-new 5.1.0", "cvc5 1.0", "z3 4.8.12", "goyacc (leafref.go overlay)", "spec functions in /verif/spec/*.smt2 transcribed from XPath 1.0 / RFC 6020 / RFC 7951"},
-			"functions_under_contract":    funcsUnder,
-			"inlined_callees":             inl,
-			"obligations_by_kind":         byKind,
-			"discharged_by_backend":       bySolver,
-			"solver_time_s":               solverSecs,
-			"samples":                     samples,
-			"contract_files":              relPaths(cfiles, w.RepoDir),
-			"known_findings_printed":      len(kfs),
-			"machine_arithmetic_assumed":  unclaimedArith,
-			"per_obligation_timeout_ms":   timeout,
-			"bounded_standins":            boundedNotes,
-			"explanation":                 "every claimed obligation (obligations.lock) is regenerated from /repo's working tree and must be answered unsat by a solver",
+			"obligations":                nObl,
+			"discharged":                 nDis,
+			"checker_cmd":                fmt.Sprintf("bin/gvc check -property %s -tier %s", *prop, *tier),
+			"trusted_base":               []string{"go/packages+go/ssa (x/tools v0.29.0)", "gvc VC generator (/verif/gvc)", "z3-new 5.1.0", "cvc5 1.0", "z3 4.8.12", "goyacc (leafref.go overlay)", "spec functions in /verif/spec/*.smt2 transcribed from XPath 1.0 / RFC 6020 / RFC 7951"},
+			"functions_under_contract":   funcsUnder,
+			"inlined_callees":            inl,
+			"obligations_by_kind":        byKind,
+			"discharged_by_backend":      bySolver,
+			"solver_time_s":              solverSecs,
+			"samples":                    samples,
+			"contract_files":             relPaths(cfiles, w.RepoDir),
+			"known_findings_printed":     len(kfs),
+			"machine_arithmetic_assumed": unclaimedArith,
+			"per_obligation_timeout_ms":  timeout,
+			"bounded_standins":           boundedNotes,
+			"explanation":                "every claimed obligation (obligations.lock) is regenerated from /repo's working tree and must be answered unsat by a solver",
 		}}
 	if crossCheck {
 		agree, undecided := 0, 0
@@ -624,7 +624,7 @@ func cmdCheck(args []string) int {
 		}
 		sort.Strings(disagreements)
 		ev.Coverage["cross_check"] = map[string]interface{}{
-			"what":          "every obligation discharged by one solver was also given to the other two (IEEE-precise script, same time-out)",
+			"what":                      "every obligation discharged by one solver was also given to the other two (IEEE-precise script, same time-out)",
 			"second_opinions_agreeing":  agree,
 			"second_opinions_undecided": undecided,
 			"disagreements":             disagreements,
@@ -981,12 +981,12 @@ func sortedSet(m map[string]bool) []string {
 }
 
 type maprangeSpec struct {
-	Packages []string          `json:"packages"`
+	Packages []string `json:"packages"`
 	Loops    map[string]struct {
 		Count int    `json:"count"` // number of such loops in the function
 		Why   string `json:"why"`   // why their outcome does not depend on the iteration order
 	} `json:"loops"` // key: "<function key> <map type>"
-	Why      string            `json:"why"`
+	Why string `json:"why"`
 	// Sorts: for the loops whose reason is "the collected keys are sorted before use": function key -> number of
 	// calls that sort a slice of strings or integers by the canonical total order of its elements (sort.Strings,
 	// sort.Ints, slices.Sort). Those functions must contain exactly that many such calls and no sort with a custom
@@ -1204,8 +1204,8 @@ func boundedOutcome(w *World, fo *funcOutcome, kfs []knownFinding) {
 }
 
 type locksetSpec struct {
-	Mutex      string   `json:"mutex"`       // "<relpkg>.<var>"
-	Guards     []string `json:"guards"`      // package-level variables the mutex protects
+	Mutex      string   `json:"mutex"`        // "<relpkg>.<var>"
+	Guards     []string `json:"guards"`       // package-level variables the mutex protects
 	HeldOnCall []string `json:"held_on_call"` // functions documented as "the caller holds the mutex"
 	Why        string   `json:"why"`
 }
@@ -1239,228 +1239,258 @@ func locksetOutcome(w *World, fo *funcOutcome) {
 		return nil
 	}
 	mu := glob(ls.Mutex)
-	guards := map[*ssa.Global]bool{}
+	allGuards := map[*ssa.Global]bool{}
 	for _, q := range ls.Guards {
 		if g := glob(q); g != nil {
-			guards[g] = true
+			allGuards[g] = true
 		}
 	}
-	heldOnCall := map[string]bool{}
+	// every other package-level mutex of the same package is held to the same discipline (it guards nothing by name)
+	mutexes := []*ssa.Global{mu}
+	if mu != nil {
+		var ns []string
+		for n := range mu.Pkg.Members {
+			ns = append(ns, n)
+		}
+		sort.Strings(ns)
+		for _, n := range ns {
+			if g, ok := mu.Pkg.Members[n].(*ssa.Global); ok && g != mu {
+				if t := ptrElem(g.Type()); t != nil {
+					if ts := types.TypeString(t, nil); ts == "sync.Mutex" || ts == "sync.RWMutex" {
+						mutexes = append(mutexes, g)
+					}
+				}
+			}
+		}
+	}
+	heldOnCallAll := map[string]bool{}
 	for _, f := range ls.HeldOnCall {
-		heldOnCall[f] = true
-	}
-	muOp := func(ins ssa.Instruction) string { // "Lock", "Unlock", "defer Unlock" or ""
-		ci, ok := ins.(ssa.CallInstruction)
-		if !ok {
-			return ""
-		}
-		cc := ci.Common()
-		callee, ok := cc.Value.(*ssa.Function)
-		if !ok || callee.Pkg == nil || callee.Pkg.Pkg.Path() != "sync" || len(cc.Args) == 0 || cc.Args[0] != ssa.Value(mu) {
-			return ""
-		}
-		if _, isDefer := ins.(*ssa.Defer); isDefer {
-			return "defer " + callee.Name()
-		}
-		return callee.Name()
-	}
-	// which functions take the mutex themselves or through static callees
-	var all []*ssa.Function
-	var collect func(fn *ssa.Function)
-	collect = func(fn *ssa.Function) {
-		all = append(all, fn)
-		for _, a := range fn.AnonFuncs {
-			collect(a)
-		}
-	}
-	var names []string
-	for k := range w.Funcs {
-		names = append(names, k)
-	}
-	sort.Strings(names)
-	for _, k := range names {
-		if fn := w.Funcs[k]; fn.Parent() == nil {
-			collect(fn)
-		}
-	}
-	locksDirect := map[*ssa.Function]bool{}
-	callees := map[*ssa.Function][]*ssa.Function{}
-	for _, fn := range all {
-		for _, blk := range fn.Blocks {
-			for _, ins := range blk.Instrs {
-				if op := muOp(ins); op == "Lock" || op == "RLock" {
-					locksDirect[fn] = true
-				}
-				if ci, ok := ins.(ssa.CallInstruction); ok {
-					if callee, ok := ci.Common().Value.(*ssa.Function); ok {
-						callees[fn] = append(callees[fn], callee)
-					}
-					if mc, ok := ci.Common().Value.(*ssa.MakeClosure); ok {
-						if callee, ok := mc.Fn.(*ssa.Function); ok {
-							callees[fn] = append(callees[fn], callee)
-						}
-					}
-				}
-			}
-		}
-	}
-	locksMemo := map[*ssa.Function]int{}
-	var locks func(fn *ssa.Function) bool
-	locks = func(fn *ssa.Function) bool {
-		if v, ok := locksMemo[fn]; ok {
-			return v == 1
-		}
-		locksMemo[fn] = 0
-		r := locksDirect[fn]
-		for _, c := range callees[fn] {
-			if !r && locks(c) {
-				r = true
-			}
-		}
-		if r {
-			locksMemo[fn] = 1
-		}
-		return r
-	}
-	const (
-		hNo, hYes, hMaybe = 0, 1, 2
-	)
-	type st struct {
-		held     int
-		deferred bool
-		seen     bool
-	}
-	join := func(a, b st) st {
-		if !a.seen {
-			return b
-		}
-		if !b.seen {
-			return a
-		}
-		r := st{seen: true, held: a.held, deferred: a.deferred || b.deferred}
-		if a.held != b.held {
-			r.held = hMaybe
-		}
-		return r
+		heldOnCallAll[f] = true
 	}
 	var offenders []string
 	seenOff := map[string]bool{}
-	report := func(fn *ssa.Function, ins ssa.Instruction, what string) {
-		pos := ""
-		if ins != nil && ins.Pos().IsValid() {
-			p := w.Fset.Position(ins.Pos())
-			pos = fmt.Sprintf(" (%s:%d)", filepath.Base(p.Filename), p.Line)
-		}
-		m := funcKey(fn) + " " + what + pos
-		if !seenOff[m] {
-			seenOff[m] = true
-			offenders = append(offenders, m)
-		}
-	}
-	heldName := map[int]string{hNo: "not held", hYes: "held", hMaybe: "held on some paths only"}
 	touched := 0
-	for _, fn := range all {
-		if len(fn.Blocks) == 0 || fn.Name() == "init" || strings.HasPrefix(fn.Name(), "init#") {
-			continue
+	configured := mu
+	for _, mu := range mutexes {
+		guards, heldOnCall := map[*ssa.Global]bool{}, map[string]bool{}
+		if mu == configured {
+			guards, heldOnCall = allGuards, heldOnCallAll
 		}
-		entry := st{seen: true, held: hNo}
-		if heldOnCall[funcKey(fn)] {
-			entry.held = hYes
+		muName := ls.Mutex
+		if mu != configured && mu != nil {
+			muName = relPkg(mu.Pkg.Pkg.Path()) + "." + mu.Name()
 		}
-		in := make([]st, len(fn.Blocks))
-		in[0] = entry
-		touches := false
-		// fixpoint; findings are reported in a last pass over the stable states
-		for pass := 0; pass < 2; pass++ {
-			changed := true
-			for iter := 0; changed && iter < 64; iter++ {
-				changed = false
-				for _, blk := range fn.Blocks {
-					cur := in[blk.Index]
-					if !cur.seen {
-						continue
+		muOp := func(ins ssa.Instruction) string { // "Lock", "Unlock", "defer Unlock" or ""
+			ci, ok := ins.(ssa.CallInstruction)
+			if !ok {
+				return ""
+			}
+			cc := ci.Common()
+			callee, ok := cc.Value.(*ssa.Function)
+			if !ok || callee.Pkg == nil || callee.Pkg.Pkg.Path() != "sync" || len(cc.Args) == 0 || cc.Args[0] != ssa.Value(mu) {
+				return ""
+			}
+			if _, isDefer := ins.(*ssa.Defer); isDefer {
+				return "defer " + callee.Name()
+			}
+			return callee.Name()
+		}
+		// which functions take the mutex themselves or through static callees
+		var all []*ssa.Function
+		var collect func(fn *ssa.Function)
+		collect = func(fn *ssa.Function) {
+			all = append(all, fn)
+			for _, a := range fn.AnonFuncs {
+				collect(a)
+			}
+		}
+		var names []string
+		for k := range w.Funcs {
+			names = append(names, k)
+		}
+		sort.Strings(names)
+		for _, k := range names {
+			if fn := w.Funcs[k]; fn.Parent() == nil {
+				collect(fn)
+			}
+		}
+		locksDirect := map[*ssa.Function]bool{}
+		callees := map[*ssa.Function][]*ssa.Function{}
+		for _, fn := range all {
+			for _, blk := range fn.Blocks {
+				for _, ins := range blk.Instrs {
+					if op := muOp(ins); op == "Lock" || op == "RLock" {
+						locksDirect[fn] = true
 					}
-					for _, ins := range blk.Instrs {
-						final := pass == 1
-						// guarded access
-						for _, op := range ins.Operands(nil) {
-							if g, ok := (*op).(*ssa.Global); ok && guards[g] {
-								touches = true
-								if final && cur.held != hYes {
-									report(fn, ins, fmt.Sprintf("touches %s where %s is %s", g.Name(), ls.Mutex, heldName[cur.held]))
-								}
-							}
+					if ci, ok := ins.(ssa.CallInstruction); ok {
+						if callee, ok := ci.Common().Value.(*ssa.Function); ok {
+							callees[fn] = append(callees[fn], callee)
 						}
-						switch op := muOp(ins); op {
-						case "Lock", "RLock":
-							if final && cur.held != hNo {
-								report(fn, ins, fmt.Sprintf("takes %s where it is already %s", ls.Mutex, heldName[cur.held]))
+						if mc, ok := ci.Common().Value.(*ssa.MakeClosure); ok {
+							if callee, ok := mc.Fn.(*ssa.Function); ok {
+								callees[fn] = append(callees[fn], callee)
 							}
-							if final && op == "RLock" {
-								report(fn, ins, "takes only the shared lock")
-							}
-							cur.held = hYes
-						case "Unlock", "RUnlock":
-							if final && cur.held != hYes {
-								report(fn, ins, fmt.Sprintf("releases %s where it is %s", ls.Mutex, heldName[cur.held]))
-							}
-							cur.held = hNo
-						case "defer Unlock", "defer RUnlock":
-							cur.deferred = true
-						case "":
-							if _, ok := ins.(*ssa.RunDefers); ok && cur.deferred {
-								cur.held = hNo
-							}
-							if ci, ok := ins.(ssa.CallInstruction); ok {
-								cc := ci.Common()
-								_, isGo := ins.(*ssa.Go)
-								_, isDefer := ins.(*ssa.Defer)
-								callee, static := cc.Value.(*ssa.Function)
-								if mc, ok := cc.Value.(*ssa.MakeClosure); ok {
-									callee, static = mc.Fn.(*ssa.Function)
-								}
-								switch {
-								case isGo || isDefer:
-								case static && heldOnCall[funcKey(callee)]:
-									touches = true
-									if final && cur.held != hYes {
-										report(fn, ins, fmt.Sprintf("calls %s (documented: caller holds %s) where it is %s", funcKey(callee), ls.Mutex, heldName[cur.held]))
-									}
-								case static:
-									if final && cur.held != hNo && locks(callee) {
-										report(fn, ins, fmt.Sprintf("calls %s, which takes %s, where it is already %s", funcKey(callee), ls.Mutex, heldName[cur.held]))
-									}
-								default:
-									if _, isBuiltin := cc.Value.(*ssa.Builtin); !isBuiltin && final && cur.held != hNo {
-										report(fn, ins, fmt.Sprintf("calls through a function value or interface where %s is %s (the callee may take it again)", ls.Mutex, heldName[cur.held]))
-									}
-								}
-							}
-							if _, ok := ins.(*ssa.Return); ok && final {
-								want := hNo
-								if heldOnCall[funcKey(fn)] {
-									want = hYes
-								}
-								if cur.held != want {
-									report(fn, ins, fmt.Sprintf("returns with %s %s", ls.Mutex, heldName[cur.held]))
-								}
-							}
-						}
-					}
-					for _, succ := range blk.Succs {
-						j := join(in[succ.Index], cur)
-						if j != in[succ.Index] {
-							in[succ.Index] = j
-							changed = true
 						}
 					}
 				}
 			}
 		}
-		if touches {
-			touched++
+		locksMemo := map[*ssa.Function]int{}
+		var locks func(fn *ssa.Function) bool
+		locks = func(fn *ssa.Function) bool {
+			if v, ok := locksMemo[fn]; ok {
+				return v == 1
+			}
+			locksMemo[fn] = 0
+			r := locksDirect[fn]
+			for _, c := range callees[fn] {
+				if !r && locks(c) {
+					r = true
+				}
+			}
+			if r {
+				locksMemo[fn] = 1
+			}
+			return r
 		}
-	}
+		const (
+			hNo, hYes, hMaybe = 0, 1, 2
+		)
+		type st struct {
+			held     int
+			deferred bool
+			seen     bool
+		}
+		join := func(a, b st) st {
+			if !a.seen {
+				return b
+			}
+			if !b.seen {
+				return a
+			}
+			r := st{seen: true, held: a.held, deferred: a.deferred || b.deferred}
+			if a.held != b.held {
+				r.held = hMaybe
+			}
+			return r
+		}
+		report := func(fn *ssa.Function, ins ssa.Instruction, what string) {
+			pos := ""
+			if ins != nil && ins.Pos().IsValid() {
+				p := w.Fset.Position(ins.Pos())
+				pos = fmt.Sprintf(" (%s:%d)", filepath.Base(p.Filename), p.Line)
+			}
+			m := funcKey(fn) + " " + what + pos
+			if !seenOff[m] {
+				seenOff[m] = true
+				offenders = append(offenders, m)
+			}
+		}
+		heldName := map[int]string{hNo: "not held", hYes: "held", hMaybe: "held on some paths only"}
+		for _, fn := range all {
+			if len(fn.Blocks) == 0 || fn.Name() == "init" || strings.HasPrefix(fn.Name(), "init#") {
+				continue
+			}
+			entry := st{seen: true, held: hNo}
+			if heldOnCall[funcKey(fn)] {
+				entry.held = hYes
+			}
+			in := make([]st, len(fn.Blocks))
+			in[0] = entry
+			touches := false
+			// fixpoint; findings are reported in a last pass over the stable states
+			for pass := 0; pass < 2; pass++ {
+				changed := true
+				for iter := 0; changed && iter < 64; iter++ {
+					changed = false
+					for _, blk := range fn.Blocks {
+						cur := in[blk.Index]
+						if !cur.seen {
+							continue
+						}
+						for _, ins := range blk.Instrs {
+							final := pass == 1
+							// guarded access
+							for _, op := range ins.Operands(nil) {
+								if g, ok := (*op).(*ssa.Global); ok && guards[g] {
+									touches = true
+									if final && cur.held != hYes {
+										report(fn, ins, fmt.Sprintf("touches %s where %s is %s", g.Name(), muName, heldName[cur.held]))
+									}
+								}
+							}
+							switch op := muOp(ins); op {
+							case "Lock", "RLock":
+								if final && cur.held != hNo {
+									report(fn, ins, fmt.Sprintf("takes %s where it is already %s", muName, heldName[cur.held]))
+								}
+								if final && op == "RLock" {
+									report(fn, ins, "takes only the shared lock")
+								}
+								cur.held = hYes
+							case "Unlock", "RUnlock":
+								if final && cur.held != hYes {
+									report(fn, ins, fmt.Sprintf("releases %s where it is %s", muName, heldName[cur.held]))
+								}
+								cur.held = hNo
+							case "defer Unlock", "defer RUnlock":
+								cur.deferred = true
+							case "":
+								if _, ok := ins.(*ssa.RunDefers); ok && cur.deferred {
+									cur.held = hNo
+								}
+								if ci, ok := ins.(ssa.CallInstruction); ok {
+									cc := ci.Common()
+									_, isGo := ins.(*ssa.Go)
+									_, isDefer := ins.(*ssa.Defer)
+									callee, static := cc.Value.(*ssa.Function)
+									if mc, ok := cc.Value.(*ssa.MakeClosure); ok {
+										callee, static = mc.Fn.(*ssa.Function)
+									}
+									switch {
+									case isGo || isDefer:
+									case static && heldOnCall[funcKey(callee)]:
+										touches = true
+										if final && cur.held != hYes {
+											report(fn, ins, fmt.Sprintf("calls %s (documented: caller holds %s) where it is %s", funcKey(callee), muName, heldName[cur.held]))
+										}
+									case static:
+										if final && cur.held != hNo && locks(callee) {
+											report(fn, ins, fmt.Sprintf("calls %s, which takes %s, where it is already %s", funcKey(callee), muName, heldName[cur.held]))
+										}
+									default:
+										if _, isBuiltin := cc.Value.(*ssa.Builtin); !isBuiltin && final && cur.held != hNo {
+											report(fn, ins, fmt.Sprintf("calls through a function value or interface where %s is %s (the callee may take it again)", muName, heldName[cur.held]))
+										}
+									}
+								}
+								if _, ok := ins.(*ssa.Return); ok && final {
+									want := hNo
+									if heldOnCall[funcKey(fn)] {
+										want = hYes
+									}
+									if cur.held != want {
+										report(fn, ins, fmt.Sprintf("returns with %s %s", muName, heldName[cur.held]))
+									}
+								}
+							}
+						}
+						for _, succ := range blk.Succs {
+							j := join(in[succ.Index], cur)
+							if j != in[succ.Index] {
+								in[succ.Index] = j
+								changed = true
+							}
+						}
+					}
+				}
+			}
+			if touches && mu == configured {
+				touched++
+			}
+		}
+	} // every mutex
+	guards := allGuards
 	fo.Res = map[int]OblResult{}
 	addObl := func(name, descr string, ok bool) {
 		i := len(fo.VC.Obls)
